@@ -40,10 +40,10 @@ OnBuild(s, e, ln) ==
   IF e.panic THEN [s EXCEPT !.viol = s.viol \cup Bad(s, ln, Enforce \cap {"C17"}, "panic in build")]
   ELSE
   LET h == e.h
-      gzHdr == h.ce.k = "val" /\ h.ce.v = [k |-> "txt", s |-> "gzip"]
+      gzHdr == h.ce.k = "val" /\ h.ce.lc = "gzip"
       ceOther == h.ce.k = "val" /\ ~gzHdr
       want == {b /\ s.level > 0 : b \in AllowedFor(s.abs)}
-      c17 == \/ ~(h.vary.k = "val" /\ h.vary.v = [k |-> "txt", s |-> "accept-encoding"])
+      c17 == \/ ~(h.vary.k = "val" /\ h.vary.lc = "accept-encoding")
              \/ ceOther
              \/ gzHdr \notin want
              \/ gzHdr # (e.sg /\ s.level > 0)      \* "as should_gzip decides", whatever the headers are
